@@ -263,7 +263,9 @@ def check_sw(case):
 @st.composite
 def sd_cases(draw, tier):
     s = draw(st.integers(1, 6))
-    return {"stride": s, "data": draw(seqs(s + 1, 30, dtype=None))}
+    # history: the same transformer object may have been fitted with another stride before (set_params + refit)
+    prior = draw(st.one_of(st.none(), st.integers(1, 6)))
+    return {"stride": s, "prior_stride": prior, "data": draw(seqs(max(s, prior or 1) + 1, 30, dtype=None))}
 
 
 def check_sd(case):
@@ -274,7 +276,13 @@ def check_sd(case):
     site = "SequentialDifferenceTransformer"
     r.label("stride:%d" % s_, "d:%d" % data["d"])
     views, plain = zip(*[guarded(L, q, data["dtype"], data["d"]) for q in data["seqs"]])
-    est = L["SD"](stride=s_)
+    if case.get("prior_stride"):
+        r.label("refit-with-other-stride")
+        est = L["SD"](stride=case["prior_stride"])
+        call(lambda: est.fit(list(views)).transform(list(views)))
+        est.set_params(stride=s_)
+    else:
+        est = L["SD"](stride=s_)
     s, out = call(lambda: est.fit(list(views)).transform(list(views)))
     if s == "exc":
         r.fail(exc_kind(out), site, exc_detail(out))
